@@ -1,14 +1,126 @@
 """C12: agents affect each other only through the shared network."""
 import check as CK
 from props import worldcommon as WC
-from props.c02 import ASSUME, replay
+from props.c02 import ASSUME
+from props.c02 import replay as world_replay
 
 TRANSLATORS = []
 COQ_FILES = ["Props/C12.v"]
 
 
+def probe_coordinator_isolation(ctx):
+    """At the coordinator (where goal checks, detection and bookkeeping run around the world's step): two Attackers with different
+    hosts, a Defender whose goal uses the documented 'all_attackers' wildcard, and a Benign agent. Whoever sends a message, the
+    view the coordinator holds for every OTHER agent stays exactly as it is (compared field by field), and an agent that repeats an
+    action without effect gets the view it had."""
+    import json
+    import sys
+    sys.path[:0] = [CK.HARNESS]
+    import nsgenv
+    import worldlib as WL
+    stats = {"messages": 0, "views_compared": 0}
+    for scenario in ("scenario1", "three_nets"):
+        cfg = nsgenv.base_config(scenario, required_players=4)
+        A = cfg["coordinator"]["agents"]["Attacker"]
+        A["start_position"]["controlled_hosts"] = ["213.47.23.195", "random"]
+        A["max_steps"] = 30
+        A["goal"]["known_data"] = {}
+        A["goal"]["known_hosts"] = ["1.1.1.1"]
+        D = cfg["coordinator"]["agents"]["Defender"]
+        D["goal"]["known_blocks"] = {"213.47.23.195": "all_attackers"}        # the shipped Defender goal
+        replay = {"kind": "coordinator_isolation", "scenario": scenario}
+        try:
+            d = nsgenv.start(cfg)
+        except Exception as e:
+            ctx.stage_errors.append((f"isolation probe start {scenario}", f"{type(e).__name__}: {e}"))
+            continue
+        try:
+            g = d.g
+            agents = [(("10.7.0.1", 1), "first", "Attacker"), (("10.7.0.2", 2), "second", "Attacker"), (("10.7.0.3", 3), "guard", "Defender"), (("10.7.0.4", 4), "user", "Benign")]
+            for a, nm, role in agents:
+                d.connect(a)
+            d.settle()
+            for a, nm, role in agents:
+                d.send(a, nsgenv.join(nm, role)); d.settle()
+            for a, nm, role in agents:
+                d.new_output(a)
+            if len(g.agents) != 4:
+                ctx.stage_errors.append((f"isolation probe {scenario}", f"only {len(g.agents)} of 4 agents joined: {d.task_errors[:1]}"))
+                continue
+
+            def views():
+                return {a: WL.impl_view(g._agent_states[a]) for a in g.agents if a in g._agent_states}
+
+            def send(a, text, what):
+                before = views()
+                d.send(a, text); d.settle()
+                d.new_output(a)
+                stats["messages"] += 1
+                after = views()
+                for b in before:
+                    if b != a and b in after:
+                        stats["views_compared"] += 1
+                        if after[b] != before[b]:
+                            diff = [k for k in before[b] if before[b][k] != after[b][k]]
+                            ctx.violations.append({"key": "a message of one agent changed the view held for another",
+                                                   "what": f"{scenario}: after {what} the view the coordinator holds for another agent (which did nothing) changed in {diff}: e.g. controlled hosts {sorted(WL.n2ip(x) for x in before[b]['ctrl'])} -> {sorted(WL.n2ip(x) for x in after[b]['ctrl'])}",
+                                                   "replay": replay})
+
+            def act(a, k):
+                st = g._agent_states[a]
+                ctrl = sorted(str(h) for h in st.controlled_hosts)
+                local = [h for h in ctrl if h.startswith(("192.168.", "10.", "172."))] or ctrl
+                known = sorted(str(h) for h in st.known_hosts)
+                nets = sorted((n.ip, n.mask) for n in st.known_networks)
+                svcs = sorted(((str(h), s_) for h, ss in st.known_services.items() for s_ in ss if str(h) not in ctrl), key=lambda x: (x[0], x[1].name))
+                if k % 4 == 0 and nets:
+                    n = nets[(k // 4) % len(nets)]
+                    return nsgenv.msg("ScanNetwork", source_host=nsgenv.ip(local[0]), target_network={"ip": n[0], "mask": n[1]}), "a ScanNetwork"
+                if k % 4 == 1:
+                    return nsgenv.msg("FindServices", source_host=nsgenv.ip(local[0]), target_host=nsgenv.ip(known[(k // 4) % len(known)])), "a FindServices"
+                if k % 4 == 2 and svcs:
+                    h, sv = svcs[(k // 4) % len(svcs)]
+                    return nsgenv.msg("ExploitService", source_host=nsgenv.ip(local[0]), target_host=nsgenv.ip(h),
+                                      target_service={"name": sv.name, "type": sv.type, "version": sv.version, "is_local": sv.is_local}), "an ExploitService"
+                return nsgenv.msg("FindData", source_host=nsgenv.ip(local[0]), target_host=nsgenv.ip(ctrl[(k // 4) % len(ctrl)])), "a FindData"
+
+            second = agents[1][0]
+            for k in range(10):                       # the second attacker gets ahead: it controls more than the first
+                if g._episode_ends.get(second):
+                    break
+                t, what = act(second, k)
+                send(second, t, what + " of the second attacker")
+            for rnd in range(6):
+                for a, nm, role in agents:
+                    if g._episode_ends.get(a):
+                        continue
+                    t, what = act(a, rnd * 4 + 3 if role != "Attacker" else rnd)
+                    send(a, t, f"{what} of {nm} ({role})")
+            if d.task_errors:
+                ctx.violations.append({"key": "task died in the isolation probe", "what": f"{scenario}: {d.task_errors[:1]}", "replay": replay})
+        except Exception as e:
+            import traceback
+            ctx.stage_errors.append((f"isolation probe {scenario}", f"{type(e).__name__}: {e}\n{traceback.format_exc()[-600:]}"))
+        finally:
+            d.close()
+    ctx.coverage["coordinator_isolation_probe"] = stats
+
+
+def replay(ctx, payload):
+    if payload.get("kind") == "coordinator_isolation":
+        c2 = CK.Ctx("C12", "quick", 1)
+        probe_coordinator_isolation(c2)
+        for v in c2.violations:
+            print(v["what"])
+        if c2.violations:
+            print("VIOLATION property=C12 replay=(this file)")
+        return 1 if c2.violations else 0
+    return world_replay(ctx, payload)
+
+
 def correspondence(ctx):
     th = ctx.tier == "thorough"
+    probe_coordinator_isolation(ctx)
     WC.world_suite(ctx, "C12", tags={"pre", "nopre"}, walks_per_spec=4 if th else 1, n_generated=24 if th else 6,
-                   n_steps=200 if th else 90, perturb=0.0, resets=0, n_agents=(2, 3), shared_every=2)
+                   n_steps=200 if th else 90, perturb=0.0, resets=30, n_agents=(2, 3), shared_every=2)
     ctx.assumptions += ASSUME + ["aliasing between agents' views is outside the value-semantic model: decided by deep snapshots (partial)"]
